@@ -63,6 +63,10 @@ RULE = ("lists of 1..8 features, start-ordered inside each seqid block, consecut
         "'empty values' cases: lists in which 1..2 keys (Note, Dbxref, tag, partial) are carried by most features with an EMPTY "
         "value list on half of them - Feature objects ({key: []} / attribute text 'Note=' or a bare flag), GFF3 and GTF (key "
         "\"\";) databases: the union is the other neighbour's values, empty when both are empty; "
+        "'zero-length' cases: ordered lists (Feature objects) in which 1..2 features, at any position (first, middle, last, two in "
+        "a row), are EMPTY - written end == start - 1, an insertion point between two bases - with every option of the plain "
+        "lists: the pairwise law holds for every consecutive pair whatever the length of the neighbours (previous.end+1 .. "
+        "next.start-1 after an empty feature starts AT its start; a following feature that starts at the same position touches it); "
         "non-trivial = at least one gap and at least one suppressed pair (touching / overlapping / seqid change) in the "
         "list or in one transcript ('alias' cases: at least two yielded features); distinct = distinct (records, options) tuples")
 REQUIRED = ["interfeatures calls", "gap features compared", "suppressed pairs: touching", "suppressed pairs: overlapping",
@@ -142,7 +146,12 @@ REQUIRED = ["interfeatures calls", "gap features compared", "suppressed pairs: t
                "multi-seqid: %s compared where grouping each transcript's exons per seqid first would give other features")] + \
            ["empty values: unions compared of a key both neighbours carry, empty on %s%s" % (side, src)
             for side in ("the downstream neighbour only", "the upstream neighbour only", "both neighbours")
-            for src in ("", " (features read from a gff3 database)", " (features read from a gtf database)")]
+            for src in ("", " (features read from a gff3 database)", " (features read from a gtf database)")] + \
+           ["zero-length features (end == start - 1): gap features compared whose upstream neighbour is empty",
+            "zero-length features (end == start - 1): gap features compared whose downstream neighbour is empty",
+            "zero-length features (end == start - 1): gap features compared that follow an earlier pair with an empty neighbour",
+            "zero-length features (end == start - 1): lists compared whose FIRST feature is empty and is followed by a gap",
+            "zero-length features (end == start - 1): suppressed pairs (touching) with an empty neighbour"]
 REQUIRED_CLASSES = ["list/objects", "list/db gff3", "list/db gtf", "introns/gff3", "introns/gtf", "splice/gff3", "splice/gtf",
                     "list/objects equal attributes", "list/db gff3 equal attributes", "list/db gtf equal attributes",
                     "list/objects update_attributes", "list/db update_attributes",
@@ -157,7 +166,7 @@ REQUIRED_CLASSES = ["list/objects", "list/db gff3", "list/db gtf", "introns/gff3
                     "introns/gff3 exons of one transcript on several seqids", "splice/gff3 exons of one transcript on several seqids",
                     "introns/gtf exons of one transcript on several seqids", "splice/gtf exons of one transcript on several seqids",
                     "list/objects empty values under a shared key", "list/db gff3 empty values under a shared key",
-                    "list/db gtf empty values under a shared key"]
+                    "list/db gtf empty values under a shared key", "list/objects zero-length features"]
 ASSUMPTIONS = [
     "'at least one base between them' = next.start - previous.end >= 2; lists are start-ordered inside a block of one seqid "
     "(the statement speaks of features given in order), exon starts are distinct inside a transcript",
@@ -187,6 +196,9 @@ ASSUMPTIONS = [
     "children); exon-typed features further down (exons of a miRNA under a primary_transcript) belong to the nested feature, "
     "which is a transcript itself only when parent_featuretype names its type; the transcripts are the features whose Parent "
     "names a feature of the grandparent type (grandparent mode) or the features of parent_featuretype",
+    "a feature may be empty (end == start - 1, an insertion point; Feature objects accept it): the statement's pairwise law is "
+    "applied to it like to any other feature - bases between = next.start - previous.end - 1.  Features with end < start - 1 "
+    "(negative length) are not generated",
     "'inputs are unchanged' includes the dictionary handed in as update_attributes: whatever a consumer does to a yielded "
     "feature's own attributes (item assignment, appending to its lists) changes neither another yielded feature nor the "
     "caller's update_attributes nor an input, and a feature is yielded as the model says whatever was done to the ones before "
@@ -456,6 +468,7 @@ def execute_list(ctx, case):
             count_update_evidence(ctx, g, real_attrs, opts, from_db=source != "objects")
             if held is not None:
                 count_bare_evidence(ctx, g, held, recs, case.get("build"))
+        count_empty_evidence(ctx, exp, model_in)
         bad = w.finish()
         if bad:
             ctx.violation(case, dict(bad[1], why="interfeatures: " + bad[0]))
@@ -470,6 +483,59 @@ def execute_list(ctx, case):
         if dbfn is not None:
             close_db(db, dbfn)
     return info
+
+
+def is_empty(m):
+    return m["end"] == m["start"] - 1
+
+
+def count_empty_evidence(ctx, exp, model_in):
+    """Evidence counters of the zero-length class (called after every expected gap was compared with a yielded feature)."""
+    if not any(is_empty(m) for m in model_in):
+        return 0
+    pre = "zero-length features (end == start - 1): "
+    n = 0
+    gap_pairs = set()
+    for g in exp:
+        i, j = g["pair"]
+        gap_pairs.add(i)
+        if is_empty(model_in[i]):
+            n += 1
+            ctx.mon(pre + "gap features compared whose upstream neighbour is empty")
+            if i == 0:
+                ctx.mon(pre + "lists compared whose FIRST feature is empty and is followed by a gap")
+        if is_empty(model_in[j]):
+            ctx.mon(pre + "gap features compared whose downstream neighbour is empty")
+        if any(is_empty(m) for m in model_in[:i]):
+            ctx.mon(pre + "gap features compared that follow an earlier pair with an empty neighbour")
+    for i, (a, b) in enumerate(zip(model_in, model_in[1:])):
+        if i not in gap_pairs and a["seqid"] == b["seqid"] and b["start"] == a["end"] + 1 and (is_empty(a) or is_empty(b)):
+            ctx.mon(pre + "suppressed pairs (touching) with an empty neighbour")
+    return n
+
+
+def zero_length_list(rng):
+    """An ordered list (G.feature_list) of 2..8 features in which 1..2 features keep their start and get end = start - 1.
+    Starts are untouched, so the list stays start-ordered inside each block of one seqid; a following feature of the same
+    block starts at or after the empty feature's start, i.e. touches it or leaves a gap that begins at that start."""
+    while True:
+        feats = G.feature_list(rng)
+        if len(feats) >= 2:
+            break
+    n = len(feats)
+    r = rng.random()
+    if r < 0.25:
+        pos = [0]
+    elif r < 0.4 and n >= 3:
+        k = rng.randrange(n - 1)
+        pos = [k, k + 1]
+    elif r < 0.5:
+        pos = [n - 1]
+    else:
+        pos = rng.sample(range(n), rng.choice([1, 1, 2]))
+    for k in pos:
+        feats[k]["end"] = feats[k]["start"] - 1
+    return feats
 
 
 def r_id(rec):
@@ -1409,6 +1475,17 @@ def run(ctx):
         ctx.case((source, case.get("build"), case["feats"], case["opts"]), info["gaps"] >= 1,
                  sample=case if len(feats) == 2 else None, cls="list/%s empty values under a shared key"
                  % ("objects" if source == "objects" else "db " + source))
+    # empty features (end == start - 1) anywhere in an ordered list: the pairwise law holds whatever the neighbours' length
+    for _ in range(ctx.budget(1600, 40000)):
+        feats = zero_length_list(rng)
+        case = {"kind": "list", "source": "objects", "feats": feats, "opts": G.list_options(rng)}
+        if rng.random() < 0.3:
+            case["build"] = "string"
+        info = execute(ctx, case)
+        mi = [to_model(r) for r in feats]
+        nt = any(is_empty(mi[g["pair"][0]]) for g in M.gaps(mi, merge_attributes=False)[0])
+        ctx.case((case.get("build"), case["feats"], case["opts"]), nt, sample=case if len(feats) <= 3 else None,
+                 cls="list/objects zero-length features")
     ctx.mon("bins.bins contract evaluations", contracts.EVALS["bins.bins"])
 
 
@@ -1440,7 +1517,9 @@ MANIFEST = {
             "features are yielded as the model says; transcripts whose exons lie on two or three seqids with interleaved "
             "starts (GFF3 and GTF): the exons are taken in start order and no intron / site is made across a change of seqid, "
             "counted separately where taking the exons seqid by seqid would give other features; keys both neighbours carry "
-            "whose value list is empty on one or both of them (objects, GFF3 'Note=' / bare flags, GTF key \"\";). "
+            "whose value list is empty on one or both of them (objects, GFF3 'Note=' / bare flags, GTF key \"\";); ordered "
+            "lists in which features at any position are empty (end == start - 1): every consecutive pair still follows the "
+            "pairwise law. "
             "The inputs' printed form, an "
             "independent sqlite3 dump of the database and the SQL trace are compared before and after each call. "
             "Held = no executed case disagreed.",
